@@ -202,14 +202,23 @@ macro_rules! cat_cfg {
                             let t = contiguous_checks::<Pr, P>(&m, n, src, ctx, prop, &what, exhaustive_up_to)?;
                             if mode == 5 {
                                 // lazily evaluated model built by the same-named constructor
+                                // (the lazy decoder must also invert the *eager* encoder: data encoded
+                                // with one representation decodes with the other)
+                                let qs5 = quantiles(&t, src, exhaustive_up_to.min(1024), 16);
                                 let tl = if use_f32 {
                                     match LazyContiguousCategoricalEntropyModel::<Pr, f32, _, P>::from_floating_point_probabilities_fast(&tab32[..], norm32) {
-                                        Ok(l) => Some(table_from_encoder::<_, P>(&l, 0..n, kusize, "C05", "lazy _fast")?),
+                                        Ok(l) => {
+                                            check_decoder::<_, P>(&l, &t, &qs5, kusize, "C05", "lazy _fast decoder vs eager _fast encoder")?;
+                                            Some(table_from_encoder::<_, P>(&l, 0..n, kusize, "C05", "lazy _fast")?)
+                                        }
                                         Err(()) => None,
                                     }
                                 } else {
                                     match LazyContiguousCategoricalEntropyModel::<Pr, f64, _, P>::from_floating_point_probabilities_fast(&tab64[..], norm64) {
-                                        Ok(l) => Some(table_from_encoder::<_, P>(&l, 0..n, kusize, "C05", "lazy _fast")?),
+                                        Ok(l) => {
+                                            check_decoder::<_, P>(&l, &t, &qs5, kusize, "C05", "lazy _fast decoder vs eager _fast encoder")?;
+                                            Some(table_from_encoder::<_, P>(&l, 0..n, kusize, "C05", "lazy _fast")?)
+                                        }
                                         Err(()) => None,
                                     }
                                 };
@@ -234,6 +243,7 @@ macro_rules! cat_cfg {
                                     (Ok(ne), Ok(nd)) => {
                                         tables_equal(&t, &table_from_encoder::<_, P>(&ne, 0..n, kusize, "C05", "non-contiguous encoder _fast")?, "contiguous _fast", "non-contiguous encoder _fast")?;
                                         tables_equal(&t, &table_from_iter::<_, P>(&nd, kusize), "contiguous _fast", "non-contiguous decoder _fast")?;
+                                        check_decoder::<_, P>(&nd, &t, &qs5, kusize, "C05", "non-contiguous _fast decoder vs contiguous _fast encoder")?;
                                     }
                                     _ => return Err(Fail::new("C05/noncontiguous_rejects_what_contiguous_accepts", what.clone())),
                                 }
